@@ -105,23 +105,24 @@ func init() {
 	core.Register(&core.Prop{
 		ID:    "C18",
 		Level: "exploration",
-		Rule: "the configuration matrix {no proxy, http, https, socks5} x {ws, wss} x the 8 subsets of {NetDial, NetDialContext, NetDialTLSContext} x proxy credentials {none, user, user:password} x backend certificate {valid for the host, other host, untrusted CA} x URL host forms (name, name:port, IPv4, [IPv6], with and without explicit port; loopback forms where no custom dial function applies) x proxy refusal {no, 407, 407 without reason phrase, 204, 302}; " +
+		Rule: "the configuration matrix {no proxy, http, https, socks5} x {ws, wss} x the 8 subsets of {NetDial, NetDialContext, NetDialTLSContext} x proxy credentials {none, user, user:password} x backend certificate {valid for the host, other host, untrusted CA} x URL host forms (name, name:port, IPv4, [IPv6], with and without explicit port; loopback forms where no custom dial function applies) x proxy refusal {no, 407, 407 without reason phrase, 204, 302}; plus the dial paths that take the proxy from the process environment {DefaultDialer, nil *Dialer, Proxy: http.ProxyFromEnvironment} x {ws, wss} x certificate x {explicit, default port}; " +
 			"in-process backends, HTTP(S) CONNECT proxy and SOCKS5 proxy on loopback record what they saw; thorough enumerates all cells, quick a fixed stride sample; distinct = the cell; non-trivial = a proxy or TLS is involved",
 		Variants:   core.PlainOnly,
 		Exhaustive: false,
 		Cases: func(tier, variant string) int {
 			if tier == "thorough" {
-				return len(c18Cells)
+				return len(c18Cells) + len(c18EnvCells)
 			}
-			return 1100
+			return 1100 + len(c18EnvCells)
 		},
 		Run:          runC18,
-		Required:     []string{"dials", "connect_requests_checked", "tls_sessions_checked", "hook_logs_checked", "bad_certificates_refused"},
+		Required:     []string{"dials", "connect_requests_checked", "tls_sessions_checked", "hook_logs_checked", "bad_certificates_refused", "dials_with_proxy_from_environment"},
 		CaseTimeoutS: 240,
 		MaxWorkers:   8,
 		Assumptions: []string{
 			"real TCP on loopback; logical host names are mapped to the loopback listeners by the recording dial hooks and by the proxies",
 			"default ports (80/443) are exercised through the recording hooks and the CONNECT target, never by binding privileged ports",
+			"HTTP_PROXY/HTTPS_PROXY are set once per worker process, before the first dial that consults the environment, to a process-wide CONNECT proxy (net/http caches them); the URL hosts of those cells are names only that proxy resolves",
 			"the thorough tier enumerates the matrix completely (evidence cells=all); quick takes every k-th cell, offset by the seed",
 		},
 	})
@@ -131,6 +132,14 @@ type hookCall struct{ Name, Network, Addr string }
 
 func runC18(ctx *core.Ctx, out *core.Out) {
 	idx := ctx.Idx
+	// the tail of the case list: dial paths whose proxy comes from the process environment
+	if n := len(c18Cells); ctx.Thorough() && idx >= n {
+		runC18Env(ctx, out, c18EnvCells[idx-n])
+		return
+	} else if !ctx.Thorough() && idx >= 1100 {
+		runC18Env(ctx, out, c18EnvCells[idx-1100])
+		return
+	}
 	if !ctx.Thorough() {
 		stride := len(c18Cells) / 1100
 		if stride < 1 {
